@@ -138,3 +138,14 @@ impl vstd::std_specs::cmp::PartialEqSpecImpl for ByteString {
     open spec fn obeys_eq_spec() -> bool { true }
     open spec fn eq_spec(&self, other: &Self) -> bool { self@ == other@ }
 }
+/// R6 target for `a.as_str() != b.as_str()` (string comparison = byte comparison)
+pub fn vx_bstr_eq(a: &ByteString, b: &ByteString) -> (r: bool) ensures r == (a@ == b@) { *a == *b }
+impl ByteString {
+    /// ByteString::trimdown releases spare capacity; the contents do not change
+    #[verifier::external_body]
+    pub fn trimdown(&mut self) ensures final(self)@ == old(self)@ { }
+}
+impl ByteString {
+    /// identity borrow (lets method-call auto-deref strip reference layers for the R6 comparison shim)
+    pub fn vx_b(&self) -> (r: &ByteString) ensures r@ == self@ { self }
+}
